@@ -1,5 +1,6 @@
 """C18 - readers and writers fail only in documented ways, on any input."""
 import glob
+import itertools
 import io
 import logging
 import os
@@ -27,7 +28,7 @@ from ttconv.vtt.config import VTTWriterConfiguration
 from ttconv.filters.doc.lcd import LCDDocFilter, LCDDocFilterConfig
 import ttconv.style_properties as styles
 
-from vt.run import Part, crash_bucket, HarnessError
+from vt.run import Part, Acc, run_check, crash_bucket, HarnessError
 
 ID = "C18"
 LEVEL = "exploration"
@@ -74,7 +75,8 @@ def corpus(reader):
 CORPUS = {r: corpus(r) for r in READERS}
 DICT = {
   "srt": ["</b>", "<b>", "<font color=", "<font color=\"red\">", "</font>", "-->", "{\\an8}", "1\n", "\n\n", "00:00:00,000 --> 00:00:01,000\n",
-          "<i", "{b}", "</i></i>", "&amp;", "\r", "﻿", "<!-- x -->", "<?x?>", "<font color=\"#f00\">", "<font color=\"orange\">"],
+          "<i", "{b}", "</i></i>", "&amp;", "\r", "﻿", "<!-- x -->", "<?x?>", "<font color=\"#f00\">", "<font color=\"orange\">",
+          "<![foo]>", "<![", "]]>", "<![CDATA[", "<!DOCTYPE x [", "&#", "&#x110000;", "</", "<>"],
   "vtt": ["<rt>", "</rt>", "<ruby>", "</ruby>", "<c.", "<c.red.bg_blue>", "&", "&amp;", "&#x;", "NOTE ", "STYLE\n", "REGION\n", "line:", "line:-1",
           "position:50%,line-left", "size:0%", "vertical:rl", "align:", "-->", "<00:00:01.000>", "<v ", "<lang en>", "</b>", "\n\n", "WEBVTT",
           "00:00.000 --> 00:01.000\n", "\r"],
@@ -487,6 +489,7 @@ CATALOG = [
   ("scc", b"Scenarist_SCC V1.0\n\n00:00:00:00\tc1c2 c3c4\n\n00:00:01:00\t942f\n"), ("scc", b"Scenarist_SCC V1.0\n\n00:00:00:00\t9425 94ad 9421 9421 9421 c1c2 94ad\n"),
   ("scc", b"Scenarist_SCC V1.0\n\n00:00:00;00\t9429 9429 97a1 c1c2 942c\n"),
   ("scc", b"Scenarist_SCC V1.0\n\n00:00:00:00\t9429 9429 9421 9421 c1c2\n"), ("scc", b"Scenarist_SCC V1.0\n\n00:00:00:00\t9420 9420 1220 1220\n"),
+  ("srt", b"1\n00:00:01,000 --> 00:00:02,000\n<![foo]>x\n"), ("srt", b"1\n00:00:01,000 --> 00:00:02,000\na<![ b <!-- c --> <?d?> <!DOCTYPE e [\n"),
   ("srt", b"1\n00:00:01,000 --> 00:00:02,000\n<font color>x</font>\n"), ("srt", b"1\n00:00:01,000 --> 00:00:02,000\n<font color=>x</font><b =>y\n"),
   ("stl", b""), ("stl", b"x" * 100), ("stl", _gsi()), ("stl", _gsi() + _tti()), ("stl", _gsi(tnb=b"00000") + _tti()), ("stl", _gsi() + _tti()[:60]),
   ("stl", _gsi(dfc=b"STL99.01") + _tti()), ("stl", _gsi(cct=b"99") + _tti()), ("stl", _gsi(dsc=b"9") + _tti()), ("stl", _gsi(tnb=b"     ") + _tti()),
@@ -569,7 +572,15 @@ def atheris_campaign(chunk):
       with open(os.path.join(corpus, "seed%03d" % i), "wb") as f:
         f.write(d)
     out = os.path.join(tmp, "out.json")
-    cmd = [sys.executable, "-m", "vt.fuzz.atheris_target", reader, out, corpus, "-max_total_time=%d" % secs, "-max_len=8192",
+    # libFuzzer dictionary: the mutation tokens of the reader and the short-payload alphabet (multi-byte magic such as "<![" or
+    # "-->" is out of reach of byte-level mutation, and coverage feedback does not see through the C regular-expression engine)
+    dict_path = os.path.join(tmp, "tokens.dict")
+    with open(dict_path, "w") as f:
+      for tok in sorted(set(DICT.get(reader, [])) | (set(SHORT_ALPHABET) if reader in ("srt", "vtt") else set())):
+        b = tok.encode("utf-8")
+        if b:
+          f.write('"%s"\n' % "".join("\\x%02x" % c for c in b))
+    cmd = [sys.executable, "-m", "vt.fuzz.atheris_target", reader, out, corpus, "-dict=" + dict_path, "-max_total_time=%d" % secs, "-max_len=8192",
            "-seed=%d" % (seed + 1), "-timeout=60", "-rss_limit_mb=4096", "-verbosity=0", "-print_final_stats=0"]
     subprocess.run(cmd, cwd=home, stdout=subprocess.DEVNULL, stderr=subprocess.DEVNULL, timeout=secs + 300, check=False)
     try:
@@ -592,5 +603,38 @@ def atheris_campaign(chunk):
     shutil.rmtree(tmp, ignore_errors=True)
 
 
+# every short cue payload (up to 3 / 4 tokens) over the characters and a few tokens that steer the text parsers (html.parser for SubRip, the WebVTT tokenizer): a finite
+# domain, enumerated; reader plus snapshots only (light mode), the writers see these documents through the Hypothesis parts
+SHORT_ALPHABET = list("<![]>-?/a &;#x=\"'\n{}.") + ["<![", "]>", "--", "foo", "<i>", "</", "00:01.500"]
+SHORT_HEAD = {"srt": "1\n00:00:01,000 --> 00:00:02,000\n", "vtt": "WEBVTT\n\n00:01.000 --> 00:02.000\n"}
+
+
+def short_chunks(tier, seed):
+  return [(r, c, 2 if tier == "quick" else 3) for r in ("srt", "vtt") for c in SHORT_ALPHABET]
+
+
+def short_campaign(chunk):
+  reader, first, depth = chunk
+  acc = Acc()
+  k = 0
+  for n in range(depth + 1):
+    for tail in itertools.product(SHORT_ALPHABET, repeat=n):
+      payload = first + "".join(tail)
+      case = {"reader": reader, "data": (SHORT_HEAD[reader] + payload + "\n").encode(), "origin": "short-payload", "mutations": ["short-payload"]}
+      res = run_check(lambda c, r: run_case(c, r, 30, light=True), case)
+      acc.evaluations += 1
+      if res.fails:
+        acc.evaluations -= 1
+        acc.add(case, res)
+      elif res.nontrivial:
+        acc.nt_counted += 1
+        if k < 1 and n == depth:
+          acc.samples.append({"reader": reader, "payload": payload})
+          k += 1
+  acc.labels["short-payload:" + reader] += acc.evaluations
+  return acc
+
+
+PARTS["short_payloads"] = Part("short_payloads", check, chunks=short_chunks, fast_check=short_campaign, exhaustive=(True, True))
 PARTS["atheris"] = Part("atheris", check, chunks=atheris_chunks, fast_check=atheris_campaign)
 PARTS["catalog"] = Part("catalog", check, chunks=catalog_chunks, cases=catalog_cases, exhaustive=(True, True))
